@@ -23,10 +23,20 @@ func nodeStartSequence() (string, error) {
 		repo = "/repo"
 	}
 	fset := token.NewFileSet()
-	f, err := parser.ParseFile(fset, filepath.Join(repo, "node/node.go"), nil, 0)
-	if err != nil {
-		return "", err
+	// every source file of the package: the start-up function and the node's methods may live in any of them
+	names, _ := filepath.Glob(filepath.Join(repo, "node", "*.go"))
+	var decls []ast.Decl
+	for _, name := range names {
+		if strings.HasSuffix(name, "_test.go") {
+			continue
+		}
+		pf, err := parser.ParseFile(fset, name, nil, 0)
+		if err != nil {
+			return "", err
+		}
+		decls = append(decls, pf.Decls...)
 	}
+	f := &ast.File{Decls: decls}
 	// methods of *Node declared in node.go: a call `node.m()` of one of them is replaced by the calls its body makes, so
 	// that moving a part of the start-up into a helper method (or back) leaves the sequence unchanged
 	methods := map[string]*ast.FuncDecl{}
@@ -84,7 +94,7 @@ func nodeStartSequence() (string, error) {
 		collect(fd.Body, 0)
 	}
 	if !found {
-		return "", fmt.Errorf("StartWithHeight not found in node/node.go")
+		return "", fmt.Errorf("StartWithHeight not found in package node")
 	}
 	return strings.Join(calls, ","), nil
 }
